@@ -1159,40 +1159,26 @@ size_t mfuse::base_str<CharT>::ui64toStr(uint64_t num, CharT* output, size_t len
 template<typename CharT>
 size_t mfuse::base_str<CharT>::floattoStr(float num, CharT* output, size_t len, uintptr_t precision)
 {
-    int32_t ipart = (int32_t)num;
-    size_t totalDigits = numtoStr(ipart, output, len, 10);
-
-    if (precision != 0)
-    {
-        // decimals
-        output[totalDigits] = '.';
-
-        float fpart = num - (float)ipart;
-        if (!fpart)
-        {
-            uintptr_t k;
-            uintptr_t idx = totalDigits + 1;
-            for (k = 0; k < precision; ++k, ++idx) {
-                output[idx] = '0';
-            }
-            output[idx] = 0;
-        }
-        else
-        {
-            fpart = fpart * pow(10, precision);
-
-            const size_t digits = numtoStr((int32_t)fpart, output + totalDigits + 1, len, 10);
-
-            totalDigits += digits;
-
-            uintptr_t k;
-            uintptr_t idx = totalDigits + 1 + digits;
-            for (k = digits + 1; k < precision; ++k) {
-                output[idx] = '0';
-            }
-            output[idx] = 0;
-        }
+    // fixed notation with `precision` decimals, truncated to the caller's buffer
+    char text[64];
+    int count = snprintf(text, sizeof(text), "%.*f", (int)precision, (double)num);
+    if (count < 0) {
+        count = 0;
     }
+
+    size_t totalDigits = (size_t)count < sizeof(text) ? (size_t)count : sizeof(text) - 1;
+    if (len == 0) {
+        return 0;
+    }
+
+    if (totalDigits > len - 1) {
+        totalDigits = len - 1;
+    }
+
+    for (size_t i = 0; i < totalDigits; ++i) {
+        output[i] = (CharT)text[i];
+    }
+    output[totalDigits] = 0;
 
     return totalDigits;
 }
